@@ -15,8 +15,9 @@
 #include "common.h"
 
 #include <sys/time.h>
-/* virtual clock (microseconds), advanced only by the gaps of the case */
-static long long vclock;
+/* virtual clock (microseconds), advanced by the gaps of the case and, for a termtype written
+ * "<name>@<usec>", by <usec> inside every key / mouse handler (an application that takes its time) */
+static long long vclock, handler_usec;
 int __wrap_gettimeofday(struct timeval *tv, void *tz)
 {
   long long v = 1000000LL * 1000000LL + vclock;
@@ -35,6 +36,7 @@ static int on_key(TickitTerm *tt, TickitEventFlags flags, void *_info, void *dat
   if(n == 0) OUT("-");
   for(size_t i = 0; i < n; i++) OUT("%02x", (unsigned char)info->str[i]);
   OUT(" ");
+  vclock += handler_usec;
   return 0;
 }
 
@@ -42,6 +44,7 @@ static int on_mouse(TickitTerm *tt, TickitEventFlags flags, void *_info, void *d
 {
   TickitMouseEventInfo *info = _info;
   OUT("m%d:%d:%d:%d:%d ", info->type, info->button, info->line, info->col, info->mod);
+  vclock += handler_usec;
   return 0;
 }
 
@@ -51,6 +54,7 @@ int main(void)
     if(vh_ntok < 3) { printf("ERR case\n"); fflush(stdout); continue; }
     outn = 0; out[0] = 0; vclock = 0;
     size_t len; unsigned char *b = vh_hex(vh_tok[1], &len);
+    { char *at = strchr(vh_tok[0], '@'); handler_usec = at ? atoll(at + 1) : 0; if(at) *at = 0; }
     /* a leading '!' marks a stream with malformed parts (robustness only, see tools/props/C20.py) */
     TickitTerm *tt = tickit_term_build(&(struct TickitTermBuilder){ .termtype = vh_tok[0] + (vh_tok[0][0] == '!') });
     if(!tt) { printf("ERR noterm\n"); fflush(stdout); free(b); continue; }
